@@ -34,15 +34,17 @@ ASSUMPTIONS = ["the component dictionary is a parameter of the model (instantiat
                "coordinates, B-factors, occupancies, extra fields and the box are opaque tokens in the model",
                "inter-residue bonds of type ANY / AROMATIC* cannot be expressed in struct_conn (known findings)"]
 LEVEL_TEXT = ("Lean theorems on a token-table model of set_structure/get_structure (component dictionary as a parameter): "
-              "atom table round-trip for every model count and optional-field choice, exact model selection, dense == dict "
-              "matching, bond partition; bond round-trip proved path by path and composed: struct_conn (uniquely "
-              "identifiable atoms, types SINGLE..QUADRUPLE/COORDINATION), chem_comp_bond (every type it can express, under "
-              "the decidable component-consistency predicate), two-sided writer<->reader statement for dropped backbone "
-              "links, and C04_bonds_roundtrip_partial: writeBlock then readStructure(model=1, include_bonds) returns the "
-              "same atoms and exactly the same typed bond set for every well-formed structure (WFS); altloc first and "
-              "occupancy policies exact. Partial: inter-residue ANY/AROMATIC* (known findings), dictionary-implied links of "
-              "non-SINGLE type, model=None composition and text==binary==compressed (proved only relative to the assumed "
-              "C05/C06 table identities) are covered by correspondence + the write-read oracle through the three real writers")
+              "C04_stack_roundtrip: for every well-formed structure (WFS) writeBlock then readStructure returns, for "
+              "model=None, the whole stack (atoms with all annotations, the coordinates of every model, box token, exactly "
+              "the same typed bond set), for model=k+1 and k-M model k, and rejects model 0 / out of range; unequal model "
+              "lengths rejected; model count = number of groups. Bond paths proved and composed: struct_conn (types "
+              "SINGLE..QUADRUPLE/COORDINATION), chem_comp_bond (every type it can express, decidable component consistency), "
+              "dropped backbone links restored (two-sided writer<->reader statement), dictionary-implied links of another "
+              "type kept in struct_conn and winning the merge (precedence lemma). Altloc first/occupancy policies exact; "
+              "mask filtering remaps bond indices consistently; the box is the first model's box (iff statement). dense == "
+              "dict matching. Partial: inter-residue ANY/AROMATIC* and per-model differing boxes (known findings, format "
+              "limits), altloc='all', and text==binary==compressed (proved only relative to the assumed C05/C06 table "
+              "identities) are covered by correspondence + the write-read oracle through the three real writers")
 LEVEL_NOTE = "CIF text layer, BinaryCIF encodings, float formatting and box trigonometry are trusted/exercised only"
 TECHNIQUE = "Lean 4 proof (induction over row lists / residue groups / dict insertion, composition through readStructure) + correspondence + write-read oracle"
 
@@ -692,8 +694,14 @@ def gen_models_case(rng):
     m = rng.randint(1, 4)
     nums = rng.sample([1, 2, 3, 5, 7, 10, -1, 0], m)
     lens = [rng.randint(1, 3)] * m
-    if rng.random() < 0.4 and m > 1:
+    r = rng.random()
+    if r < 0.3 and m > 1:
         lens[rng.randrange(m)] += 1
+    elif r < 0.55 and m > 2 and lens[0] > 1:
+        # unequal lengths whose total still equals length-of-first x model count (2,1,3): must be rejected too
+        i, j = rng.sample(range(1, m), 2)
+        lens[i] -= 1
+        lens[j] += 1
     rows = []
     idn = 1
     for k in range(m):
@@ -705,6 +713,56 @@ def gen_models_case(rng):
     for k in sorted({1, m, -1, -m, m + 1, -m - 1, 0, rng.randint(-6, 6)}):
         ops.append(f"read {k} first 0 0 1")
     return {"kind": "models", "ops": ops, "models": {"nums": nums, "lens": lens}}
+
+
+def gen_boxes_case(rng):
+    """A stack whose models have their own boxes (NPT trajectory): token k = cubic box of edge 10 + k."""
+    m = rng.randint(1, 4)
+    if rng.random() < 0.2:
+        toks = None
+    elif rng.random() < 0.4:
+        toks = [rng.randint(0, 9)] * m
+    else:
+        toks = [rng.randint(0, 9) for _ in range(m)]
+    return {"kind": "boxes", "ops": ["boxes " + ("-" if toks is None else ",".join(str(t) for t in toks))], "boxes": toks, "m": m}
+
+
+def _boxes_roundtrip(toks, m):
+    import numpy as np
+    import biotite.structure as struc
+    from biotite.structure.io import pdbx
+    arr = struc.AtomArrayStack(m if toks is None else len(toks), 1)
+    arr.chain_id[:] = "A"
+    arr.res_id[:] = 1
+    arr.res_name[:] = "LG1"
+    arr.atom_name[:] = "X1"
+    arr.element[:] = "C"
+    if toks is not None:
+        arr.box = np.stack([np.eye(3) * (10.0 + t) for t in toks])
+    f = pdbx.BinaryCIFFile()
+    pdbx.set_structure(f, arr)
+    cell = f.block.get("cell")
+    back = pdbx.get_structure(f, model=None)
+
+    def tok(a):
+        return str(int(round(float(a) - 10.0)))
+    cell_tok = "-" if cell is None else tok(cell["length_a"].as_item())
+    read = "-" if back.box is None else ",".join(tok(b[0][0]) for b in back.box)
+    return cell_tok, read
+
+
+def _oracle_boxes(case):
+    _setup()
+    toks = case["boxes"]
+    if toks is None:
+        return []
+    _cell, read = _boxes_roundtrip(toks, case["m"])
+    want = ",".join(str(t) for t in toks)
+    if read != want:
+        if len(set(toks)) > 1 and read == ",".join([str(toks[0])] * len(toks)):
+            return [("C04/box/per-model-boxes-collapsed", f"boxes {toks} of the models read back as {read}: only the first box is stored")]
+        return [("C04/box/unit-cell", f"boxes {toks} read back as {read}")]
+    return []
 
 
 def _key(rng):
@@ -796,6 +854,8 @@ def cases(rng, tier):
             yield gen_altloc_case(rng)
         elif r < 0.86:
             yield gen_models_case(rng)
+        elif r < 0.885:
+            yield gen_boxes_case(rng)
         elif r < 0.91:
             yield gen_find_case(rng)
         elif r < 0.96:
@@ -1147,6 +1207,10 @@ def run_impl(case):
                     arr = pdbx.get_structure(src, model=model, altloc={"first": "first", "occ": "occupancy"}[w[2]],
                                              extra_fields=fields, include_bonds=(w[3] == "1"))
                     out.append(_show_read(arr, w[4] == "1", w[5] == "1", opt_names))
+                elif w[0] == "boxes":
+                    toks = None if w[1] == "-" else [int(t) for t in w[1].split(",")]
+                    cell_tok, read = _boxes_roundtrip(toks, 1)
+                    out.append(f"ok cell={cell_tok} read={read}")
                 elif w[0] == "find":
                     qs = w[1].split(";")
                     rs = [] if w[2] in ("_", "-") else w[2].split(";")
@@ -1386,6 +1450,16 @@ def _oracle_altloc(case):
                 v.append((f"C04/altloc/{policy}/error", f"raised {type(e).__name__}: {e}"))
                 continue
         got = [int(x) - 1 for x in arr.atom_id]
+        if policy == "first":
+            # altloc="all": nothing is filtered, the ids come back as the `altloc_id` annotation
+            with warnings.catch_warnings():
+                warnings.simplefilter("ignore")
+                try:
+                    allarr = pdbx.get_structure(_hand_block(site, None, None), model=1, altloc="all", extra_fields=["atom_id"])
+                    if [int(x) - 1 for x in allarr.atom_id] != list(range(len(rows))) or [str(x) for x in allarr.altloc_id] != [r[2] for r in rows]:
+                        v.append(("C04/altloc/all", f"altloc='all' returned rows {[int(x) - 1 for x in allarr.atom_id]} ids {list(allarr.altloc_id)} for {[r[2] for r in rows]}"))
+                except Exception as e:  # noqa: BLE001
+                    v.append(("C04/altloc/all/error", f"altloc='all' raised {type(e).__name__}: {e}"))
         if got != keep:
             ids = sorted({rows[k][2] for k in set(got) ^ set(keep)})
             cls = "digit-ids" if any(i.isdigit() for i in ids) else "letter-ids"
@@ -1443,6 +1517,8 @@ def oracle(case):
         return _oracle_models(case)
     if k == "large-dict":
         return _oracle_large(case)
+    if k == "boxes":
+        return _oracle_boxes(case)
     return []
 
 
